@@ -111,7 +111,9 @@ instance (used w : Int) : (x : Option WKey) → Decidable (updatePre used w x)
       the key is present and a time-to-live is set — `now + ttl` is representable, AT THE CLOCK OF THIS ACTION;
     * `upsert.weight_of` with no change of the expiry index, `ttl.put`, `ttl.delete`, `ttl.update.insert`: the tail of
       `put_or_update` runs in this action — the weight it carries (the explicit / computed one, or the
-      `existing ± ttl_ticker_entry_size` that `upsert.weight_of` computed) is a positive `i64`. -/
+      `existing ± ttl_ticker_entry_size` that `upsert.weight_of` computed from a CHARGED id) is a positive `i64`;
+      it carries none (`uwOk none`: nothing is asserted, nothing will be sent) when neither weight nor value is given
+      and the id was not charged at `upsert.weight_of` (fix c86efeb) or the expiry index only moves. -/
 def CPc.pre (g : State) : CPc → Prop
   | .start r => r.startPre g
   | .upUpdate k v w ttl rm =>
